@@ -202,14 +202,23 @@ struct HolderBase
 {
     virtual ~HolderBase() = default;
     virtual void stream(const J& item) = 0;
+    virtual std::unique_ptr<HolderBase> moved() = 0; // move-constructs a new stream object from this one
 };
 
 template <typename L, int Sev>
 struct Holder : HolderBase
 {
     decltype(Make<L, Sev>::go(nullptr)) s;
+    using Stream = decltype(Make<L, Sev>::go(nullptr));
     explicit Holder(long tag) : s(Make<L, Sev>::go(tagref(tag)))
     {
+    }
+    explicit Holder(Stream&& other) : s(std::move(other))
+    {
+    }
+    std::unique_ptr<HolderBase> moved() override
+    {
+        return std::unique_ptr<HolderBase>(new Holder(std::move(s)));
     }
     void stream(const J& item) override
     {
@@ -310,6 +319,14 @@ struct Prog
         else if (op == "End")
         {
             slots[static_cast<std::size_t>(st["slot"].num()) - 1].reset();
+        }
+        else if (op == "Move")
+        {
+            std::size_t from = static_cast<std::size_t>(st["slot"].num()) - 1, to = static_cast<std::size_t>(st["to"].num()) - 1;
+            if (slots.size() <= to)
+                slots.resize(to + 1);
+            slots[to] = slots[from]->moved();
+            slots[from].reset(); // the moved-from stream object is destroyed: it must not log
         }
         J o = J::obj();
         o.set("kind", kind);
